@@ -1,10 +1,166 @@
 //! C03 — broadcasting: shape rule and value placement. Value protocol with distinct tags.
+//! Robustness streams (FRAMEWORK.md): stretch targets beyond 256 / 1024 / 4096 elements and axis lengths 7..17, zero-length
+//! axes, the element-type sweep (byte-sized types, floats with -0.0 / +0.0 / NaN / subnormals compared bit-wise, integers
+//! beyond 2^53, String), both receivers, the same call twice.
 use arrharness::*;
+use std::panic::{catch_unwind, AssertUnwindSafe};
 
-fn show_pairs(a: &Array<Tuple2<i64, i64>>) -> String {
-    let e = a.get_elements().unwrap();
-    let items: Vec<String> = e.iter().map(|t| format!("{}/{}", t.0, t.1)).collect();
-    format!("{}:{}", show_list(&a.get_shape().unwrap()), if items.is_empty() { "-".to_string() } else { items.join(",") })
+// ================================================================ element-type images
+
+/// image of a tag in another element type: broadcasting is value-blind, so it must move the IMAGES exactly as it moves the tags
+trait Image {
+    type T: ArrayElement;
+    const NAME: &'static str;
+    fn img(t: i64) -> Self::T;
+    fn same(a: &Self::T, b: &Self::T) -> bool { a == b }
+}
+struct I64; struct I64Big; struct U8; struct U8Hi; struct I8; struct Bool; struct U16; struct I32; struct Usize; struct F32; struct F64z; struct F64v; struct Str;
+impl Image for I64 { type T = i64; const NAME: &'static str = "i64"; fn img(t: i64) -> i64 { t } }
+/// integers beyond 2^53 (an f64 round trip loses the low bit)
+impl Image for I64Big { type T = i64; const NAME: &'static str = "i64 (2^53 + 1 + tag)"; fn img(t: i64) -> i64 { (1i64 << 53) + 1 + t } }
+impl Image for U8 { type T = u8; const NAME: &'static str = "u8"; fn img(t: i64) -> u8 { tag_u8(t) } }
+impl Image for U8Hi { type T = u8; const NAME: &'static str = "u8 (255 - tag)"; fn img(t: i64) -> u8 { 255 - tag_u8(t) } }
+impl Image for I8 { type T = i8; const NAME: &'static str = "i8"; fn img(t: i64) -> i8 { (t.rem_euclid(255) - 127) as i8 } }
+impl Image for Bool { type T = bool; const NAME: &'static str = "bool"; fn img(t: i64) -> bool { t % 2 != 0 } }
+impl Image for U16 { type T = u16; const NAME: &'static str = "u16"; fn img(t: i64) -> u16 { t.rem_euclid(65521) as u16 } }
+impl Image for I32 { type T = i32; const NAME: &'static str = "i32"; fn img(t: i64) -> i32 { (t % 2_000_000_011) as i32 } }
+impl Image for Usize { type T = usize; const NAME: &'static str = "usize"; fn img(t: i64) -> usize { t.unsigned_abs() as usize } }
+impl Image for F32 { type T = f32; const NAME: &'static str = "f32 (tag 0 = -0.0)"; fn img(t: i64) -> f32 { if t == 0 { -0.0 } else { (t % 16_000_000) as f32 } } fn same(a: &f32, b: &f32) -> bool { a.to_bits() == b.to_bits() } }
+/// tag 0 is NEGATIVE zero, every other tag its own value; compared bit-wise
+impl Image for F64z { type T = f64; const NAME: &'static str = "f64 (tag 0 = -0.0)"; fn img(t: i64) -> f64 { tag_f64z(t) } fn same(a: &f64, b: &f64) -> bool { a.to_bits() == b.to_bits() } }
+/// value classes by tag mod 8: -0.0, +0.0 (== but not identical), NaN, a negative NaN with payload (never ==), the two smallest
+/// subnormals, 2^53 + 2, the tag itself; compared bit-wise
+impl Image for F64v {
+    type T = f64; const NAME: &'static str = "f64 (-0.0/+0.0/NaN/subnormal classes)";
+    fn img(t: i64) -> f64 {
+        match t.rem_euclid(8) { 0 => -0.0, 1 => 0.0, 2 => f64::NAN, 3 => f64::from_bits(0xFFF8_0000_0000_0BAD), 4 => f64::from_bits(1), 5 => -f64::from_bits(1),
+                                6 => 9007199254740994.0, _ => t as f64 }
+    }
+    fn same(a: &f64, b: &f64) -> bool { a.to_bits() == b.to_bits() }
+}
+impl Image for Str { type T = String; const NAME: &'static str = "String"; fn img(t: i64) -> String { format!("s{t}") } }
+
+type Raw = (Vec<usize>, Vec<i64>);
+/// build the real array WITHOUT going through any operation under test other than `Array::new`
+fn build<I: Image>(r: &Raw) -> Array<I::T> { Array::new(r.1.iter().map(|&t| I::img(t)).collect(), r.0.clone()).expect("harness: malformed array literal in case line") }
+
+#[derive(Clone, Debug)]
+enum Out<V> { Ok(V), Err(&'static str), Panic }
+fn run<V>(f: impl FnOnce() -> Result<V, ArrayError>) -> Out<V> {
+    match catch_unwind(AssertUnwindSafe(f)) { Ok(Ok(v)) => Out::Ok(v), Ok(Err(e)) => Out::Err(err_name(&e)), Err(_) => Out::Panic }
+}
+#[derive(Clone, Debug)]
+struct Piece<E> { shape: Vec<usize>, elems: Vec<E>, consistent: bool }
+#[derive(Clone, Debug)]
+enum Ans<T> { Arr(Piece<T>), Pairs(Piece<(T, T)>), List(Vec<Piece<T>>) }
+fn piece<T: ArrayElement>(a: &Array<T>) -> Piece<T> { Piece { shape: a.get_shape().unwrap(), elems: a.get_elements().unwrap(), consistent: consistent(a) } }
+fn pairs<T: ArrayElement>(a: &Array<Tuple2<T, T>>) -> Piece<(T, T)> {
+    Piece { shape: a.get_shape().unwrap(), elems: a.get_elements().unwrap().into_iter().map(|t| (t.0, t.1)).collect(), consistent: consistent(a) }
+}
+
+enum Call { Broadcast(Raw, Raw), Zip(Raw, Raw), To(Raw, Vec<usize>), Arrays(Vec<Raw>) }
+
+/// the real call on the `I` image of the operands.  `chained` = the same method on `Ok(array)` through
+/// `impl ArrayBroadcast<T> for Result<Array<T>, ArrayError>` (`None`: `zip` has no such form)
+fn call<I: Image>(c: &Call, chained: bool) -> Option<Out<Ans<I::T>>> {
+    Some(match (c, chained) {
+        (Call::Broadcast(a, b), false) => { let (a, b) = (build::<I>(a), build::<I>(b)); run(|| a.broadcast(&b).map(|r| Ans::Pairs(pairs(&r)))) }
+        (Call::Broadcast(a, b), true) => { let (a, b) = (build::<I>(a), build::<I>(b)); let r: Result<Array<I::T>, ArrayError> = Ok(a); run(|| r.broadcast(&b).map(|r| Ans::Pairs(pairs(&r)))) }
+        (Call::Zip(a, b), false) => { let (a, b) = (build::<I>(a), build::<I>(b)); run(|| a.zip(&b).map(|r| Ans::Pairs(pairs(&r)))) }
+        (Call::Zip(..), true) => return None,
+        (Call::To(a, t), false) => { let a = build::<I>(a); run(|| a.broadcast_to(t.clone()).map(|r| Ans::Arr(piece(&r)))) }
+        (Call::To(a, t), true) => { let r: Result<Array<I::T>, ArrayError> = Ok(build::<I>(a)); run(|| r.broadcast_to(t.clone()).map(|r| Ans::Arr(piece(&r)))) }
+        (Call::Arrays(l), false) => { let l: Vec<Array<I::T>> = l.iter().map(build::<I>).collect(); run(|| Array::broadcast_arrays(l).map(|v| Ans::List(v.iter().map(piece).collect()))) }
+        (Call::Arrays(l), true) => { let l: Vec<Array<I::T>> = l.iter().map(build::<I>).collect();
+            run(|| <Result<Array<I::T>, ArrayError> as ArrayBroadcast<I::T>>::broadcast_arrays(l).map(|v| Ans::List(v.iter().map(piece).collect()))) }
+    })
+}
+
+fn show_piece(p: &Piece<i64>) -> String { format!("{}{}:{}", if p.consistent { "" } else { "<inconsistent array> " }, show_list(&p.shape), show_list(&p.elems)) }
+/// protocol text of the canonical (plain receiver, i64 tags) answer
+fn show_out(o: &Out<Ans<i64>>) -> String {
+    match o {
+        Out::Panic => "panic".to_string(),
+        Out::Err(e) => format!("err {e}"),
+        Out::Ok(Ans::Arr(p)) => format!("ok {}", show_piece(p)),
+        Out::Ok(Ans::Pairs(p)) => {
+            let items: Vec<String> = p.elems.iter().map(|t| format!("{}/{}", t.0, t.1)).collect();
+            format!("ok {}{}:{}", if p.consistent { "" } else { "<inconsistent array> " }, show_list(&p.shape), if items.is_empty() { "-".to_string() } else { items.join(",") })
+        }
+        Out::Ok(Ans::List(v)) => format!("ok {}", if v.is_empty() { "-".to_string() } else { v.iter().map(show_piece).collect::<Vec<_>>().join(";") }),
+    }
+}
+
+fn piece_agrees<I: Image>(b: &Piece<i64>, v: &Piece<I::T>) -> Option<String> {
+    if b.shape != v.shape || b.consistent != v.consistent || b.elems.len() != v.elems.len() { return Some(format!("shape {} ({} elements)", show_list(&v.shape), v.elems.len())); }
+    for p in 0..b.elems.len() {
+        if !I::same(&I::img(b.elems[p]), &v.elems[p]) { return Some(format!("{:?} at flat position {p} where the image of tag {} is {:?}", v.elems[p], b.elems[p], I::img(b.elems[p]))); }
+    }
+    None
+}
+/// does the answer `v` on the `I` image agree with the canonical answer `b` on the i64 tags?  `Some(what)` = no.
+/// Same outcome class (any two errors agree), same shapes, and every element is the image of the tag at that position
+/// (pairs: both components separately).
+fn disagree<I: Image>(b: &Out<Ans<i64>>, v: &Out<Ans<I::T>>) -> Option<String> {
+    match (b, v) {
+        (Out::Panic, Out::Panic) | (Out::Err(_), Out::Err(_)) => None,
+        (Out::Ok(Ans::Arr(b)), Out::Ok(Ans::Arr(v))) => piece_agrees::<I>(b, v),
+        (Out::Ok(Ans::List(b)), Out::Ok(Ans::List(v))) => {
+            if b.len() != v.len() { return Some(format!("{} arrays", v.len())); }
+            (0..b.len()).find_map(|k| piece_agrees::<I>(&b[k], &v[k]).map(|d| format!("array {k}: {d}")))
+        }
+        (Out::Ok(Ans::Pairs(b)), Out::Ok(Ans::Pairs(v))) => {
+            if b.shape != v.shape || b.consistent != v.consistent || b.elems.len() != v.elems.len() { return Some(format!("shape {} ({} elements)", show_list(&v.shape), v.elems.len())); }
+            for p in 0..b.elems.len() {
+                if !I::same(&I::img(b.elems[p].0), &v.elems[p].0) { return Some(format!("first component {:?} at flat position {p} where the image of tag {} is {:?}", v.elems[p].0, b.elems[p].0, I::img(b.elems[p].0))); }
+                if !I::same(&I::img(b.elems[p].1), &v.elems[p].1) { return Some(format!("second component {:?} at flat position {p} where the image of tag {} is {:?}", v.elems[p].1, b.elems[p].1, I::img(b.elems[p].1))); }
+            }
+            None
+        }
+        (_, Out::Ok(_)) => Some("a value".to_string()),
+        (_, Out::Err(e)) => Some(format!("err {e}")),
+        (_, Out::Panic) => Some("a panic".to_string()),
+    }
+}
+
+/// one element-type image: plain and chained receiver against the canonical answer; `Some(text)` = a divergence
+fn variant<I: Image>(c: &Call, base: &Out<Ans<i64>>, plain: bool, chained: bool) -> Option<String> {
+    if plain {
+        let v = call::<I>(c, false)?;
+        if let Some(d) = disagree::<I>(base, &v) {
+            return Some(if I::NAME == "i64" { format!("REPEAT-DIVERGENCE the same call a second time gives {d}") } else { format!("TYPE-DIVERGENCE element type {} gives {d}", I::NAME) });
+        }
+    }
+    if chained {
+        if let Some(v) = call::<I>(c, true) {
+            if let Some(d) = disagree::<I>(base, &v) { return Some(format!("RECEIVER-DIVERGENCE the call on the Result receiver (element type {}) gives {d}", I::NAME)); }
+        }
+    }
+    None
+}
+
+/// the canonical answer text of a case plus the robustness streams: the same call a second time, the Result receiver, the
+/// element-type sweep.  Results of up to 600 elements: every image on both receivers; larger ones: i64 / u8 on both receivers,
+/// bool / the two f64 images on the plain one.
+fn observe(c: &Call) -> String {
+    let base = call::<I64>(c, false).expect("plain form exists");
+    let text = show_out(&base);
+    let size = match &base { Out::Ok(Ans::Arr(p)) => p.elems.len(), Out::Ok(Ans::Pairs(p)) => p.elems.len(), Out::Ok(Ans::List(v)) => v.iter().map(|p| p.elems.len()).sum(), _ => 0 };
+    let small = size <= 600;
+    let d = variant::<I64>(c, &base, true, true)
+        .or_else(|| variant::<U8>(c, &base, true, true))
+        .or_else(|| variant::<F64z>(c, &base, true, small))
+        .or_else(|| variant::<F64v>(c, &base, true, small))
+        .or_else(|| variant::<Bool>(c, &base, true, small))
+        .or_else(|| if small { variant::<I8>(c, &base, true, true) } else { None })
+        .or_else(|| if small { variant::<U8Hi>(c, &base, true, true) } else { None })
+        .or_else(|| if small { variant::<I64Big>(c, &base, true, true) } else { None })
+        .or_else(|| if small { variant::<U16>(c, &base, true, true) } else { None })
+        .or_else(|| if small { variant::<I32>(c, &base, true, true) } else { None })
+        .or_else(|| if small { variant::<F32>(c, &base, true, true) } else { None })
+        .or_else(|| if small { variant::<Usize>(c, &base, true, true) } else { None })
+        .or_else(|| if small { variant::<Str>(c, &base, true, true) } else { None });
+    match d { Some(d) => format!("{d}; plain Array<i64> call: {}", truncate(&text, 300)), None => text }
 }
 
 /// can `s` be stretched to `t`? Same rule as the Lean `stretchable`: trailing alignment; every source axis equals the
@@ -163,32 +319,177 @@ fn gen(tier: &str, seed: u64, out: &mut dyn FnMut(String)) {
         out(format!("h2 {} {}", tag(s), tag_off(&[], 1000)));
         out(format!("h3 {} {} {}", tag(s), tag_off(&[], 1000), tag_off(&[], 2000)));
     }
+    gen_robust(thorough, &mut rng, out);
+}
+
+/// `s` with the axes selected by `unit` set to length 1
+fn unitize(s: &[usize], unit: impl Fn(usize) -> bool) -> Vec<usize> { s.iter().enumerate().map(|(k, &d)| if unit(k) { 1 } else { d }).collect() }
+
+/// sources that stretch to `b`: one axis made a unit axis, only one axis kept, leading axes dropped (with and without
+/// a unit first axis), the one-element array
+fn sources_of(b: &[usize]) -> Vec<Vec<usize>> {
+    let mut v: Vec<Vec<usize>> = vec![vec![1]];
+    for k in 0..b.len() {
+        v.push(unitize(b, |j| j == k));
+        v.push(unitize(b, |j| j != k));
+    }
+    for j in 1..b.len() {
+        v.push(b[j..].to_vec());
+        v.push(unitize(&b[j..], |k| k == 0));
+        v.push(unitize(&b[j..], |k| k != 0));
+    }
+    v.sort(); v.dedup();
+    v.retain(|s| s != b);
+    v
+}
+
+/// every operation on the big target `b` (element count beyond the small scope)
+fn emit_big_target(b: &[usize], out: &mut dyn FnMut(String)) {
+    let n: usize = b.iter().product();
+    for s in sources_of(b) {
+        out(format!("broadcast_to {} {}", tag(&s), show_list(b)));
+        out(format!("zip {} {}", tag(b), tag_off(&s, 100000)));
+        out(format!("broadcast {} {}", tag(b), tag_off(&s, 100000)));
+    }
+    // complementary unit axes: neither operand has the common shape
+    let mut pairs: Vec<(Vec<usize>, Vec<usize>)> = vec![];
+    if b.len() >= 2 {
+        pairs.push((unitize(b, |k| k % 2 == 0), unitize(b, |k| k % 2 == 1)));
+        for k in 0..b.len() { pairs.push((unitize(b, |j| j == k), unitize(b, |j| j != k))); }
+        pairs.push((unitize(b, |k| k == 0), vec![b[0]].into_iter().chain(std::iter::repeat(1).take(b.len() - 1)).collect()));
+        pairs.push((b[1..].to_vec(), unitize(b, |k| k != 0)));
+    }
+    pairs.sort(); pairs.dedup();
+    for (s, t) in &pairs {
+        out(format!("broadcast {} {}", tag(s), tag_off(t, 100000)));
+        out(format!("broadcast {} {}", tag(t), tag_off(s, 100000)));
+        out(format!("broadcast_arrays {};{}", tag(s), tag_off(t, 100000)));
+        out(format!("broadcast_arrays {};{};{}", tag(t), tag_off(&[1], 100000), tag_off(s, 200000)));
+    }
+    // an added leading axis on the whole big array (gather arm with a big source); the model is quadratic here
+    if n * n <= 30_000_000 {
+        let mut t = vec![2]; t.extend(b);
+        out(format!("broadcast_to {} {}", tag(b), show_list(&t)));
+        let mut t3 = vec![3, 1]; t3.extend(b);
+        out(format!("broadcast_to {} {}", tag(b), show_list(&t3)));
+        out(format!("broadcast {} {}", tag(b), tag_off(&unitize(&t, |k| k != 0), 100000)));
+    }
+    // equal element count: the reshape shortcut, and the identity
+    out(format!("broadcast_to {} {}", tag(b), show_list(b)));
+    let mut t1 = vec![1]; t1.extend(b);
+    out(format!("broadcast_to {} {}", tag(b), show_list(&t1)));
+    out(format!("broadcast {} {}", tag(b), tag_off(b, 100000)));
+    out(format!("zip {} {}", tag(b), tag_off(b, 100000)));
+    // a target that the source cannot be stretched to (one axis one longer)
+    let mut bad = b.to_vec(); let l = bad.len() - 1; bad[l] += 1;
+    out(format!("broadcast_to {} {}", tag(b), show_list(&bad)));
+    out(format!("broadcast {} {}", tag(b), tag_off(&bad, 100000)));
+}
+
+/// targets beyond the small scope that are specific to C03
+fn c03_big_targets(thorough: bool) -> Vec<Vec<usize>> {
+    let mut v = big_shapes();
+    // every axis length 7..=17 in the leading, an inner and the trailing position
+    for l in 7..=17usize { v.push(vec![l, l]); v.push(vec![2, l]); v.push(vec![l, 3]); v.push(vec![2, l, 3]); v.push(vec![l, 2, 2]); v.push(vec![2, 2, l]); }
+    // more than 4096 elements with no period of 4096, ranks 2..6
+    v.extend(vec![vec![3, 41, 41], vec![65, 64], vec![64, 65], vec![4097], vec![2, 2049], vec![17, 16, 16], vec![9, 8, 8, 8], vec![3, 3, 4, 5, 6, 4], vec![4, 1025], vec![1025, 4], vec![8192], vec![90, 91]]);
+    if thorough { v.extend(vec![vec![128, 129], vec![20000], vec![3, 70, 70], vec![26, 25, 24], vec![2, 3, 4, 5, 6, 7], vec![12288], vec![5, 4096]]); }
+    v.sort(); v.dedup();
+    v
+}
+
+/// FRAMEWORK.md robustness streams: sizes, zero-length axes, value classes (the element-type sweep and the two receivers are
+/// applied by `exec` to EVERY case)
+fn gen_robust(thorough: bool, rng: &mut Rng, out: &mut dyn FnMut(String)) {
+    // corpus: seeded changes that an earlier generator missed
+    for l in ["broadcast_to i70,1 70,70", "broadcast i3,1,1 i41,41+100000", "broadcast_to i3,1 3,3", "broadcast i2,1 i3+1000", "broadcast_arrays i2,1,1;i1,2+1000",
+              "broadcast_to 2:0,1 3,2", "broadcast 2,1:1,0 i1,2,3+1000"] { out(l.to_string()); }
+    // ---- sizes
+    for b in c03_big_targets(thorough) { emit_big_target(&b, out); }
+    // seeded random big targets: rank 1..5, axis lengths 1..24 (thorough 1..48), 300..6000 (12000) elements, random unit axes
+    let (n_big, max_len, max_n) = if thorough { (150, 48, 12000) } else { (24, 24, 6000) };
+    let mut made = 0;
+    while made < n_big {
+        let b = rng.shape(1, 5, max_len);
+        let n: usize = b.iter().product();
+        if n < 300 || n > max_n { continue; }
+        made += 1;
+        let derive = |rng: &mut Rng| -> Vec<usize> { let j = rng.below(b.len()); b[j..].iter().map(|&d| if rng.below(2) == 0 { 1 } else { d }).collect() };
+        let (s, t, u) = (derive(rng), derive(rng), derive(rng));
+        out(format!("broadcast_to {} {}", tag(&s), show_list(&b)));
+        out(format!("zip {} {}", tag(&b), tag_off(&t, 100000)));
+        out(format!("broadcast {} {}", tag(&s), tag_off(&t, 100000)));
+        out(format!("broadcast_arrays {};{};{}", tag(&s), tag_off(&t, 100000), tag_off(&u, 200000)));
+    }
+    // the crate-internal helpers on targets above 4096 elements (string tags < 10^4, counts / widths kept small)
+    for (a, b) in [(vec![70, 1], vec![70]), (vec![70], vec![70, 1]), (vec![41, 41], vec![3, 1, 1]), (vec![1, 41], vec![3, 41, 1]), (vec![9, 9, 9, 9], vec![9]), (vec![5000], vec![1]), (vec![1], vec![1, 4100]),
+                   (vec![17, 1], vec![16]), (vec![8, 1, 9], vec![7, 1])] {
+        out(format!("h2 {} {}", tag(&a), tag_off(&b, 1000)));
+        out(format!("h3 {} {} {}", tag(&a), tag_off(&b, 1000), tag_off(&[1], 2000)));
+        out(format!("h3 {} {} {}", tag(&a), tag_off(&[1], 1000), tag_off(&b, 2000)));
+    }
+    // ---- zero-length axes: every ordered pair with at least one zero-length shape
+    let mut zs = zero_shapes();
+    zs.extend(vec![vec![0, 0, 0], vec![3, 0], vec![0, 3], vec![1, 0, 1]]);
+    let mut others = zs.clone();
+    others.extend(vec![vec![1], vec![2], vec![3], vec![1, 1], vec![2, 1], vec![1, 2], vec![2, 3], vec![1, 1, 1], vec![2, 1, 3]]);
+    for s in &others { for t in &others {
+        if !zs.contains(s) && !zs.contains(t) { continue; }
+        out(format!("broadcast {} {}", tag(s), tag_off(t, 1000)));
+        out(format!("zip {} {}", tag(s), tag_off(t, 1000)));
+        out(format!("broadcast_to {} {}", tag(s), show_list(t)));
+        out(format!("broadcast_arrays {};{}", tag(s), tag_off(t, 1000)));
+        out(format!("h2 {} {}", tag(s), tag_off(t, 1000)));
+        let u = rng.pick(&others).clone();
+        out(format!("broadcast_arrays {};{};{}", tag(s), tag_off(t, 1000), tag_off(&u, 2000)));
+        out(format!("h3 {} {} {}", tag(s), tag_off(t, 1000), tag_off(&u, 2000)));
+    } }
+    for z in &zs { out(format!("broadcast_arrays {}", tag(z))); }
+    // ---- value classes: sources whose elements are all `==` but not identical under the f64 image (tags 0 / 1 = -0.0 / +0.0),
+    // and mixtures with NaN (2, 3), subnormals (4, 5) and 2^53+2 (6); every 0/1 pattern of up to 4 elements
+    let srcs: Vec<Vec<usize>> = vec![vec![1], vec![2], vec![3], vec![4], vec![1, 2], vec![2, 1], vec![2, 2], vec![3, 1], vec![1, 3], vec![2, 1, 2], vec![1, 2, 1], vec![4, 1]];
+    for s in &srcs {
+        let n: usize = s.iter().product();
+        let mut pats: Vec<Vec<i64>> = (0..1u32 << n).map(|m| (0..n).map(|k| ((m >> k) & 1) as i64).collect()).collect();
+        for _ in 0..4 { pats.push((0..n).map(|_| *rng.pick(&[0i64, 1, 1, 0, 2, 3, 4, 5, 6, 8, 9])).collect()); }
+        for p in pats {
+            let a = format!("{}:{}", show_list(s), show_list(&p));
+            let mut t: Vec<usize> = s.iter().map(|&d| if d == 1 { 3 } else { d }).collect();
+            let mut t2 = vec![2]; t2.extend(s);
+            out(format!("broadcast_to {a} {}", show_list(&t2)));
+            if &t != s { out(format!("broadcast_to {a} {}", show_list(&t))); }
+            t.insert(0, 2);
+            out(format!("broadcast_to {a} {}", show_list(&t)));
+            out(format!("broadcast {a} {}", tag_off(&t, 1000)));
+            out(format!("zip {} {a}", tag_off(&t, 1000)));
+            out(format!("broadcast_arrays {a};{};{a}", tag_off(&t2, 1000)));
+        }
+    }
 }
 
 fn exec(op: &str, args: &[&str], expected: &str) -> Option<Verdict> {
     match op {
         "broadcast" => {
-            let (a, b) = (parse_arr_i64(args[0]), parse_arr_i64(args[1]));
-            Some(compare_default(guarded(|| show_res(&a.broadcast(&b), show_pairs)), expected))
+            Some(compare_default(observe(&Call::Broadcast(parse_arr_raw(args[0]), parse_arr_raw(args[1]))), expected))
         }
         "zip" => {
-            let (a, b) = (parse_arr_i64(args[0]), parse_arr_i64(args[1]));
-            let obs = guarded(|| show_res(&a.zip(&b), show_pairs));
-            let (sa, sb) = (a.get_shape().unwrap(), b.get_shape().unwrap());
+            let (a, b) = (parse_arr_raw(args[0]), parse_arr_raw(args[1]));
+            let (sa, sb) = (a.0.clone(), b.0.clone());
+            let obs = observe(&Call::Zip(a, b));
             // equal count but not a stretch: region the statement leaves open
             if !stretchable(&sb, &sa) && sa.iter().product::<usize>() == sb.iter().product::<usize>() && obs != expected { return Some(Verdict::Open(obs)); }
             Some(compare_default(obs, expected))
         }
         "broadcast_to" => {
-            let a = parse_arr_i64(args[0]); let t = parse_usize_list(args[1]);
-            let obs = guarded(|| res_arr(&a.broadcast_to(t.clone())));
-            let sa = a.get_shape().unwrap();
+            let a = parse_arr_raw(args[0]); let t = parse_usize_list(args[1]);
+            let sa = a.0.clone();
+            let obs = observe(&Call::To(a, t.clone()));
             if !stretchable(&sa, &t) && sa.iter().product::<usize>() == t.iter().product::<usize>() && obs != expected { return Some(Verdict::Open(obs)); }
             Some(compare_default(obs, expected))
         }
         "broadcast_arrays" => {
-            let l = parse_arr_list_i64(args[0]);
-            Some(compare_default(guarded(|| res_arr_list(&Array::broadcast_arrays(l.clone()))), expected))
+            let l: Vec<Raw> = if args[0] == "-" { vec![] } else { args[0].split(';').map(parse_arr_raw).collect() };
+            Some(compare_default(observe(&Call::Arrays(l)), expected))
         }
         // broadcast_h2 observed through `multiply` (a pure lift over it): tag v of the string operand is the text of v,
         // tag 1000+j of the count operand is the count j+1 — the result text gives back both stretched operands
